@@ -535,40 +535,7 @@ func (g *Gen) run() {
 				g.symPanicking = &sp
 			}
 			g.emitAxioms(st)
-			for _, si := range stateInvariants {
-				env := &SpecEnv{g: g, st: st, old: st, fn: f, argOverride: map[string]Term{}, bound: map[string]Term{}, boundTypes: map[string]types.Type{}}
-				saved := w.binders
-				ok := true
-				for _, b := range si.Binders {
-					bt, err := env.resolveType(b.Typ)
-					if err != nil {
-						g.note("spec error in invariant binder: %v", err)
-						ok = false
-						break
-					}
-					w.n++
-					name := fmt.Sprintf("%s_inv%d", b.Name, w.n)
-					env.bound[b.Name] = T(name, w.sortOf(bt))
-					env.boundTypes[b.Name] = bt
-					w.binders = append(w.binders, binderT{name, w.sortOf(bt)})
-				}
-				if ok {
-					if t, err := env.evalBool(si.Expr); err == nil {
-						w.assume(t.S)
-					} else {
-						g.note("spec error in invariant: %v", err)
-					}
-				}
-				w.binders = saved
-			}
-			for _, gi := range globalInvariants {
-				env := &SpecEnv{g: g, st: st, old: st, fn: f, argOverride: map[string]Term{}, bound: map[string]Term{}}
-				if t, err := env.evalBool(gi.Expr); err == nil {
-					w.assume(t.S)
-				} else {
-					g.note("spec error in global invariant: %v", err)
-				}
-			}
+			g.assumeUnitInvariants(st, f)
 			held := g.w.heapArr(st, "ghost:held", "Int")
 			g.w.assume(fmt.Sprintf("(forall ((m Int)) (! (>= (select %s m) 0) :pattern ((select %s m))))", held.S, held.S))
 			g.entry = st.clone()
